@@ -87,12 +87,12 @@ func ConvAlphabet() []Msg {
 type OpKind uint8
 
 const (
-	OpAdd      OpKind = iota // cur.Add(d, m)
-	OpAdd2                   // cur.Add(d, m, m2)
-	OpClose                  // cur.Close(d)
-	OpSMFAdd                 // s.Add(cur); cur = new empty track
-	OpSMFAddKeep             // s.Add(cur); the same track variable keeps being used
-	OpWrite                  // s.WriteTo(discard): a write in the middle of the history (closes open tracks in place)
+	OpAdd        OpKind = iota // cur.Add(d, m)
+	OpAdd2                     // cur.Add(d, m, m2)
+	OpClose                    // cur.Close(d)
+	OpSMFAdd                   // s.Add(cur); cur = new empty track
+	OpSMFAddKeep               // s.Add(cur); the same track variable keeps being used
+	OpWrite                    // s.WriteTo(discard): a write in the middle of the history (closes open tracks in place)
 )
 
 type Op struct {
@@ -151,11 +151,11 @@ func Division(tf smf.TimeFormat) uint16 {
 
 // Model is the reference state.
 type Model struct {
-	Format uint16
-	Tracks [][]refsmf.Event // as added to the file
-	Cur    []refsmf.Event   // track under construction
-	Events int              // total events added through Add (bound bookkeeping)
-	Writes int              // number of OpWrite so far (bound bookkeeping)
+	Format            uint16
+	Tracks            [][]refsmf.Event // as added to the file
+	Cur               []refsmf.Event   // track under construction
+	Events            int              // total events added through Add (bound bookkeeping)
+	Writes            int              // number of OpWrite so far (bound bookkeeping)
 	TracksAtLastWrite int
 }
 
